@@ -124,6 +124,13 @@ def generate(rng, tier):
             yield f"cycleobj {sx(xser.ldef(obj))}", "from-objects"
         except Exception:  # noqa: BLE001
             continue
+    # degenerate but representable: a definition whose only container has no entries (no parameters, no types)
+    with warnings.catch_warnings():
+        warnings.simplefilter("ignore")
+        obj = xbuild.definition(["def", S("CCSDSPacket"), [["cont", S("CCSDSPacket"), "0", "-", [], [], []]]])
+        obj.date = xmlops.FIXED_DATE
+        obj.ns, obj.xtce_schema_uri = {"xtce": URIS[0]}, URIS[0]
+    yield f"cycleobj {sx(xser.ldef(obj))}", "from-objects-empty"
 
 
 def decode_same(d1, d2, n=6):
